@@ -163,6 +163,8 @@ def run_opt(case):
         plan["solver"]["max_time"] = fault.get("max_time", 10)
     if fault.get("unknown_at_check"):
         plan["unknown_at_check"] = fault["unknown_at_check"]
+    if case.get("staged"):
+        plan["staged"] = case["staged"]
     res = pr.run_solve(spec, plan, keep=True)
     acc.executions += 1
     out = res["outcome"]
@@ -170,7 +172,7 @@ def run_opt(case):
     incumbents = [int(x) for x in FOUND.findall(printed)]
     checks = list(res["checks"])
     acc.count(acc.outcomes, f"{out}|{'fault' if fault else 'full'}")
-    sig = common.h([common.h(spec), cfg, fault])
+    sig = common.h([common.h(spec), cfg, fault, case.get("staged")])
     multi_nonweighted = (len(spec["objectives"]) > 1 and cfg.get("optimizer") == "optimize"
                          and cfg.get("optimize_priority", "pareto") != "weight")
     if out in ("build_error", "exception"):
@@ -354,6 +356,24 @@ def specs(tier):
             {"id": "j", "kind": "FromExpr", "name": "s1", "expr": ["start", "t1"]}],
             objectives=[{"kind": "MaximizeIndicator", "indicator": "i", "weight": w1},
                         {"kind": "MaximizeIndicator", "indicator": "j", "weight": w2}])))
+    # three weighted objectives, the third pulling against the first two (dropping it changes the optimum)
+    for w in ((1, 1, 3), (2, 1, 1)):
+        out.append((f"weighted3.min.{'.'.join(map(str, w))}", fam.base(6, [fam.fx("t0", 2), fam.fx("t1", 1)], workers=W,
+                                                                      requirements=on[:2], indicators=[
+            {"id": "i", "kind": "FromExpr", "name": "s0", "expr": ["start", "t0"]},
+            {"id": "j", "kind": "FromExpr", "name": "s1", "expr": ["start", "t1"]},
+            {"id": "k", "kind": "FromExpr", "name": "gap", "expr": ["-", 6, ["end", "t0"]]}],
+            objectives=[{"kind": "MinimizeIndicator", "indicator": "i", "weight": w[0]},
+                        {"kind": "MinimizeIndicator", "indicator": "j", "weight": w[1]},
+                        {"kind": "MinimizeIndicator", "indicator": "k", "weight": w[2]}])))
+        out.append((f"weighted3.max.{'.'.join(map(str, w))}", fam.base(6, [fam.fx("t0", 2), fam.fx("t1", 1)], workers=W,
+                                                                      requirements=on[:2], indicators=[
+            {"id": "i", "kind": "FromExpr", "name": "e0", "expr": ["end", "t0"]},
+            {"id": "j", "kind": "FromExpr", "name": "s1", "expr": ["start", "t1"]},
+            {"id": "k", "kind": "FromExpr", "name": "gap", "expr": ["-", 6, ["start", "t0"]]}],
+            objectives=[{"kind": "MaximizeIndicator", "indicator": "i", "weight": w[0]},
+                        {"kind": "MaximizeIndicator", "indicator": "j", "weight": w[1]},
+                        {"kind": "MaximizeIndicator", "indicator": "k", "weight": w[2]}])))
     return out
 
 
@@ -395,6 +415,18 @@ def generate(tier, seed):
         for ci, cfg in enumerate(cfgs):
             cases.append({"cid": f"full-{name}-{ci}", "family": "undisturbed", "kind": "c07", "spec": spec,
                           "solver": dict(cfg, max_time=30)})
+        # the same problem object declared in two stages with a complete solve in between (every split point, the
+        # warm-up through either optimiser): what an earlier solver left on the problem must not change the optimum
+        if multi:
+            for first in range(1, len(spec["objectives"]) + 1):
+                for wi, warm in enumerate(({"optimizer": "incremental"},
+                                           {"optimizer": "optimize", "optimize_priority": "weight"})):
+                    if first == 1 and wi == 1:
+                        continue
+                    for ci, cfg in enumerate((cfgs[0], cfgs[2])):
+                        cases.append({"cid": f"staged-{name}-{first}-{wi}-{ci}", "family": "staged", "kind": "c07",
+                                      "spec": spec, "solver": dict(cfg, max_time=30),
+                                      "staged": {"first": first, "solver": dict(warm, max_time=30)}})
         # interruption points of the incremental loop
         maxk = 6 if tier == "quick" else 12
         for k in range(1, maxk + 1):
